@@ -1027,6 +1027,50 @@ func checkMetaNumbers(c MetaCase) error {
 
 var subMeta = harness.Define("metadata-numbers", "viewBox members of every float class (finite, ordered) and suggested palettes of 0..64 four-byte entries (chunk lengths 6..258 crossing the 1/2-byte natural boundary, chunk counts 0..2) through Encoder.Reset, read back with the reference parser", checkMetaNumbers)
 
+// The three naturals that frame a metadata chunk (chunk count, chunk length, identifier), each in
+// every width: a longer form than necessary is the same number.
+type FrameCase struct {
+	Widths [3]int `json:"widths"` // of the chunk count, the chunk length, the identifier
+	Pal    bool   `json:"palette"`
+}
+
+func checkFrame(c FrameCase) error {
+	body := []byte{0x50, 0x50, 0xb0, 0xb0} // viewBox -24,-24,24,24 in one-byte coordinates
+	mid := uint32(0)
+	if c.Pal {
+		body, mid = []byte{0x01, 0x18, 0x63}, 1 // two one-byte colours
+	}
+	m := spec.EncodeNaturalW(mid, c.Widths[2])
+	b := append([]byte{0x89, 'I', 'V', 'G'}, spec.EncodeNaturalW(1, c.Widths[0])...)
+	b = append(b, spec.EncodeNaturalW(uint32(len(m)+len(body)), c.Widths[1])...)
+	b = append(append(b, m...), body...)
+	rec := &ops.Recorder{}
+	if err := decode.Decode(rec, b); err != nil || len(rec.Ops) != 1 {
+		return harness.Violatef("c08/public-natural-form", "metadata framed by naturals of widths %v (% x) is not decoded: %v", c.Widths, b, err)
+	}
+	if p := spec.Parse(b); !p.MetaOK || rec.Ops[0].ViewBox() != gen.VB(p.ViewBox) || rec.Ops[0].Palette() != p.Palette {
+		return harness.Violatef("c08/public-natural-form", "metadata framed by naturals of widths %v (% x) decodes to other metadata than the reference reads", c.Widths, b)
+	}
+	if vb, err := decode.DecodeViewBox(b); err != nil || vb != rec.Ops[0].ViewBox() {
+		return harness.Violatef("c08/public-natural-form", "DecodeViewBox on metadata framed by naturals of widths %v: %v %v", c.Widths, vb, err)
+	}
+	return nil
+}
+
+var subFrame = harness.Define("metadata-framing-naturals", "chunk count, chunk length and chunk identifier each in the 1-, 2- and 4-byte natural form (27 combinations x viewBox/palette chunk): decoded as the same numbers; non-trivial = a form longer than necessary", checkFrame)
+
+func TestMetadataFraming(t *testing.T) {
+	harness.OnlyFirstShard(t)
+	for _, pal := range []bool{false, true} {
+		for a := 0; a < 27; a++ {
+			w := []int{1, 2, 4}
+			c := FrameCase{Widths: [3]int{w[a%3], w[a/3%3], w[a/9]}, Pal: pal}
+			subFrame.See(c, a > 0, harness.HashJSON(c), fmt.Sprintf("identifier-width=%d", c.Widths[2]))
+			subFrame.Run(t, c)
+		}
+	}
+}
+
 func TestMetadataNumbers(t *testing.T) {
 	for n := 0; n <= 64; n++ {
 		c := MetaCase{ViewBox: [4]ops.F32{-32, -32, 32, 32}, NPal: n}
